@@ -7,7 +7,7 @@ import z3
 from .common import *
 from ..mirsym import interp
 from ..pyengine import run_sequence
-from ..mirsym.values import cast_int_to_float
+from ..mirsym.values import cast_int_to_float, Opaque
 
 
 def rstr(bs):
@@ -227,3 +227,222 @@ class EventBufferSpec(KernelSpec):
 
     def native_view(self, inst, shape, v, st):
         return self.view(v)
+
+
+# ----------------------------------------------------------------------------------------------------
+# C16.g : the client's row API.  TableBuffer::push_row_and_timestamp row after row
+# ----------------------------------------------------------------------------------------------------
+import re as _re
+
+
+class TableBufferRowsSpec(KernelSpec):
+    """shape = tuple of rows, each a tuple of (column, kind) with kind in i/f/n/s.  After pushing the rows: TableBuffer.len == number
+    of rows; every column mentioned holds, for every row, the value logged for it (ints coerced to float once the column has seen a
+    float) or nothing (row did not mention the column / logged NULL); a `timestamp` column is added to rows that do not carry one.
+    The wire column (dense / sparse / empty) is read back with the wire format's meaning: dense entry i = row i, sparse pair
+    (r, v) = row r, everything else NULL."""
+    dumps = ("ser",)
+    diff_cases = 1
+
+    def get_fn(self, ctx, inst):
+        return None
+
+    def instantiations(self, tier):
+        return [{"nat": "table_buffer_rows"}]
+
+    def shapes(self, tier, inst):
+        out = [
+            ((("a", "i"),), (("a", "i"), ("b", "f"))),                          # b first seen in row 1
+            ((("a", "i"), ("b", "i")), (("a", "i"),), (("b", "f"),)),           # b skipped, then promoted to float
+            ((("a", "n"),), (("a", "i"),)),                                      # explicit NULL first
+            ((("a", "f"), ("timestamp", "f")), (("a", "i"),)),                   # explicit timestamp on one row only
+            ((), (("a", "i"),)),                                                 # empty row
+            ((("a", "s"),), (("a", "s"),)),
+        ]
+        if tier == "thorough":
+            out += [((("a", "i"),), (), (("a", "f"),), (("a", "n"),)), ((("a", "i"), ("b", "n")), (("b", "n"),), (("b", "i"),)),
+                    ((("timestamp", "i"),), (("timestamp", "f"),))]
+        return out
+
+    def sym_inputs(self, inst, shape):
+        inp = {}
+        for r, row in enumerate(shape):
+            for c, k in row:
+                key = f"{r}.{c}"
+                inp[key] = sym("i64", "v" + key) if k == "i" else sym("f64", "v" + key) if k == "f" else [sym("u8", "v" + key)] if k == "s" else None
+        return inp, []
+
+    def anyval(self, k, v):
+        return EventBufferSpec.anyval(None, k, v)
+
+    def explore(self, ctx, ex, fn, inst, shape, inp, pre):
+        tfs = ctx.src().struct_fields("TableBuffer")
+        if tfs is None or set(tfs) != {"len", "columns"}:
+            raise interp.Unsupported("TableBuffer{len, columns} not found")
+        self._tfs = tfs
+        from ..mirsym.models import hashmap_new
+        named = {"len": I("u64", 0), "columns": hashmap_new()}
+        tb = Agg("struct", [named[f] for f in tfs], name="TableBuffer")
+        cand = [e for e in ex.impl_index().get("push_row_and_timestamp", []) if e["hdr"]["self"].split("::")[-1] == "TableBuffer"]
+        if len(cand) != 1:
+            raise interp.Unsupported("TableBuffer::push_row_and_timestamp not found")
+        f = cand[0]["fn"]
+        counter = [0]
+
+        def now(ex_, st, fr, path, args, m):
+            return Opaque("now")
+
+        def since(ex_, st, fr, path, args, m):
+            from ..mirsym.models import ok
+            return ok(Opaque("duration"))
+
+        def millis(ex_, st, fr, path, args, m):
+            # the wall clock: concrete, whole seconds (the value is not the subject; keeps the f64 division exact)
+            return I("u128", 5000)
+        ex.stubs = [(_re.compile(r"SystemTime::now$"), now), (_re.compile(r"SystemTime::duration_since$"), since), (_re.compile(r"Duration::as_millis$"), millis)]
+        env = {"tb": Cell(tb)}
+        calls = []
+        for r, row in enumerate(shape):
+            def build(env, r=r, row=row):
+                items = [Agg("tuple", [VecObj([I("u8", b) for b in c.encode()], "u8", is_str=True), self.anyval(k, inp[f"{r}.{c}"])]) for c, k in row]
+                return [Ref(env["tb"], (), None, False, True), VecObj(items)]
+            calls.append((f, build, {"Row": "std::vec::Vec<(std::string::String, AnyVal)>"}))
+        return run_sequence(ex, pre, env, calls)
+
+    def view(self, x):
+        if isinstance(x, dict):
+            return x
+        from ..mirsym.models import hashmap_entries
+        tb = x.env["tb"].v
+        cols = {}
+        for e in hashmap_entries(tb.fields[self._tfs.index("columns")]):
+            name = bytes(b.v for b in e.fields[0].elems).decode()
+            d = e.fields[1].fields[0]
+            k = d.variant
+            if k == "Empty":
+                cols[name] = ("Empty", [])
+            elif k in ("Dense", "I64"):
+                cols[name] = (k, list(d.fields[0].elems))
+            elif k in ("Sparse", "SparseI64"):
+                cols[name] = (k, [(p.fields[0], p.fields[1]) for p in d.fields[0].elems])
+            elif k == "String":
+                cols[name] = (k, [list(s.elems) for s in d.fields[0].elems])
+            else:
+                cols[name] = (k, None)
+        return {"len": tb.fields[self._tfs.index("len")], "cols": cols}
+
+    def post(self, inst, shape, inp, value, state=None):
+        v = self.view(state if state is not None else value)
+        n = len(shape)
+        conds = [("TableBuffer.len == number of rows pushed", binop("Eq", v["len"], I("u64", n)))]
+        expected = {}
+        for r, row in enumerate(shape):
+            for c, k in row:
+                expected.setdefault(c, [None] * n)
+                expected[c][r] = None if k == "n" else (k, inp[f"{r}.{c}"])
+            if not any(c == "timestamp" for c, _ in row):
+                expected.setdefault("timestamp", [None] * n)
+                expected["timestamp"][r] = ("f", I("f64", 0x4014000000000000))      # 5.0 seconds: the stubbed clock
+        conds.append(("the buffer holds exactly the columns that were mentioned (plus timestamp)", B(set(v["cols"]) == set(expected))))
+        if set(v["cols"]) != set(expected):
+            return conds
+        for c, rows in sorted(expected.items()):
+            kind, pl = v["cols"][c]
+            is_float = any(x is not None and x[0] == "f" for x in rows)
+            is_str = any(x is not None and x[0] == "s" for x in rows)
+            # wire meaning of the column: per-row cells
+            cells = [None] * n
+            ok_shape = True
+            if kind in ("Dense", "I64", "String"):
+                if len(pl) > n:
+                    ok_shape = False
+                for i, x in enumerate(pl[:n]):
+                    cells[i] = x
+            elif kind in ("Sparse", "SparseI64"):
+                for idx, val in pl:
+                    if not idx.concrete or idx.v >= n or cells[idx.v] is not None:
+                        ok_shape = False
+                    else:
+                        cells[idx.v] = val
+            elif kind != "Empty":
+                ok_shape = False
+            want_kinds = ("String",) if is_str else (("Dense", "Sparse") if is_float else ("I64", "SparseI64", "Empty") if not any(rows) else ("I64", "SparseI64"))
+            if not any(x is not None for x in rows):
+                want_kinds = ("Empty",)
+            conds.append((f"column {c}: representation is one of {want_kinds} with in-range, distinct row indices", B(ok_shape and kind in want_kinds)))
+            if not ok_shape or kind not in want_kinds:
+                continue
+            for r, x in enumerate(rows):
+                if x is None:
+                    conds.append((f"column {c} row {r}: nothing logged -> no cell", B(cells[r] is None)))
+                    continue
+                if cells[r] is None:
+                    conds.append((f"column {c} row {r}: the logged value has a cell", B(False)))
+                    continue
+                k, val = x
+                if k == "s":
+                    conds.append((f"column {c} row {r}: string preserved", band(B(len(cells[r]) == len(val)), *[binop("Eq", a, b) for a, b in zip(cells[r], val)])))
+                elif is_float:
+                    w = cast_int_to_float(val, "f64") if k == "i" else val
+                    conds.append((f"column {c} row {r}: value preserved (ints coerced to float)", binop("Eq", I("u64", cells[r].v), I("u64", w.v))))
+                else:
+                    conds.append((f"column {c} row {r}: value preserved", binop("Eq", cells[r], val)))
+        return conds
+
+    def panic_ok(self, inst, shape, inp, msg):
+        return B(False)
+
+    def random_inputs(self, rng, inst, shape):
+        inp, _ = self.sym_inputs(inst, shape)
+        out = {}
+        for k, v in inp.items():
+            if v is None:
+                out[k] = None
+            elif isinstance(v, list):
+                out[k] = [I("u8", rng.randint(0x61, 0x7a))]
+            elif v.ty == "f64":
+                out[k] = I("f64", rng.choice([0, 0x3ff0000000000000, 0xc008000000000000, rng.getrandbits(62)]))
+            else:
+                out[k] = I("i64", rnd_int(rng, "i64"))
+        return out
+
+    def native(self, inst, shape, inp):
+        if inp is None:
+            return ("table_buffer_rows", [])
+        toks = []
+        for r, row in enumerate(shape):
+            parts = []
+            for c, k in row:
+                v = inp[f"{r}.{c}"]
+                parts.append(c + "=" + ("n" if k == "n" else f"i:{v.v}" if k == "i" else f"f:{v.v}" if k == "f" else "s:" + bytes(b.v for b in v).hex()))
+            toks.append(",".join(parts) or "-")
+        return ("table_buffer_rows", toks)
+
+    def parse_native(self, inst, shape, toks):
+        cols = {}
+        for tok in toks[1:]:
+            p = tok.split(":")
+            c, kind = p[0], p[1]
+            if kind == "Empty":
+                cols[c] = ("Empty", [])
+            elif kind in ("Dense", "I64"):
+                cols[c] = (kind, parse_ints(p[2], "f64" if kind == "Dense" else "i64"))
+            elif kind in ("Sparse", "SparseI64"):
+                cols[c] = (kind, list(zip(parse_ints(p[2], "u64"), parse_ints(p[3], "f64" if kind == "Sparse" else "i64"))))
+            elif kind == "String":
+                cols[c] = (kind, [[I("u8", b) for b in bytes.fromhex(h)] for h in p[2].split(",")] if p[2] else [])
+            else:
+                cols[c] = (kind, None)
+        # the real clock differs from the stub: the timestamp column is compared by representation and entry count only
+        return self._blank_ts({"len": I("u64", int(toks[0])), "cols": cols})
+
+    @staticmethod
+    def _blank_ts(d):
+        d = {"len": d["len"], "cols": dict(d["cols"])}
+        if "timestamp" in d["cols"]:
+            k, pl = d["cols"]["timestamp"]
+            d["cols"]["timestamp"] = (k, len(pl) if pl is not None else None)
+        return d
+
+    def native_view(self, inst, shape, v, st):
+        return self._blank_ts(self.view(st))
